@@ -119,3 +119,82 @@ func verifLemmaMessage(u *UePolDeliverySer) (*UePolDeliverySer, []byte, error) {
 	err = v.UePolDeliverySerDecode(b)
 	return v, b, err
 }
+
+// a complete MANAGE UE POLICY COMMAND built through the API: nested list -> list element contents -> message ->
+// octets -> message -> nested list
+func verifLemmaCommandNested(pti, iei, t0 uint8, mcc, mnc int, upsc uint16, c0 [3]byte, withClassmark bool) (UEPolicySectionManagementListContent, *UePolDeliverySer, error) {
+	part := UEPolicyPart{}
+	part.UEPolicyPartType.SetPartType(t0)
+	part.SetPartContent(c0[:])
+	ins := Instruction{}
+	ins.SetUpsc(upsc)
+	ins.UEPolicySectionContents.AppendUEPolicyPart(&part)
+	sub := UEPolicySectionManagementSubList{}
+	if err := sub.SetPlmnDigit(mcc, mnc); err != nil {
+		return nil, nil, err
+	}
+	sub.UEPolicySectionManagementSubListContents.AppendInstruction(ins)
+	var list UEPolicySectionManagementListContent
+	list.AppendSublist(sub)
+	content, err := list.MarshalBinary()
+	if err != nil {
+		return nil, nil, err
+	}
+	u := NewUePolDeliverySer()
+	u.SetHeaderPTI(pti)
+	u.SetHeaderMessageType(MsgTypeManageUEPolicyCommand)
+	u.ManageUEPolicyCommand = NewManageUEPolicyCommand(MsgTypeManageUEPolicyCommand)
+	u.ManageUEPolicyCommand.SetPTI(pti)
+	u.ManageUEPolicyCommand.UEPolicySectionManagementList.SetIei(iei)
+	u.ManageUEPolicyCommand.SetUEPolicySectionManagementListContent(content)
+	u.ManageUEPolicyCommand.UEPolicySectionManagementList.SetLen(uint16(len(content)))
+	if withClassmark {
+		u.ManageUEPolicyCommand.UEPolicyNetworkClassmark = NewUEPolicyNetworkClassmark()
+	}
+	b, err := u.UePolDeliverySerEncode()
+	if err != nil {
+		return nil, nil, err
+	}
+	v := NewUePolDeliverySer()
+	if err := v.UePolDeliverySerDecode(b); err != nil {
+		return nil, nil, err
+	}
+	var got UEPolicySectionManagementListContent
+	err = got.UnmarshalBinary(v.ManageUEPolicyCommand.GetUEPolicySectionManagementListContent())
+	return got, v, err
+}
+
+// a complete MANAGE UE POLICY COMMAND REJECT built through the API, with the nested result list
+func verifLemmaRejectNested(pti, iei uint8, mcc, mnc int, r0, r1 Result) (UEPolicySectionManagementResultContent, *UePolDeliverySer, error) {
+	sub := UEPolicySectionManagementSubResult{}
+	if err := sub.SetPlmnDigit(mcc, mnc); err != nil {
+		return nil, nil, err
+	}
+	sub.UEPolicySectionManagementSubResultContents.AppendResult(r0)
+	sub.UEPolicySectionManagementSubResultContents.AppendResult(r1)
+	var list UEPolicySectionManagementResultContent
+	list.AppendSublist(sub)
+	content, err := list.MarshalBinary()
+	if err != nil {
+		return nil, nil, err
+	}
+	u := NewUePolDeliverySer()
+	u.SetHeaderPTI(pti)
+	u.SetHeaderMessageType(MsgTypeManageUEPolicyReject)
+	u.ManageUEPolicyReject = NewManageUEPolicyReject(MsgTypeManageUEPolicyReject)
+	u.ManageUEPolicyReject.SetPTI(pti)
+	u.ManageUEPolicyReject.UEPolicySectionManagementResult.SetIei(iei)
+	u.ManageUEPolicyReject.SetUEPolicySectionManagementResultContent(content)
+	u.ManageUEPolicyReject.UEPolicySectionManagementResult.SetLen(uint16(len(content)))
+	b, err := u.UePolDeliverySerEncode()
+	if err != nil {
+		return nil, nil, err
+	}
+	v := NewUePolDeliverySer()
+	if err := v.UePolDeliverySerDecode(b); err != nil {
+		return nil, nil, err
+	}
+	var got UEPolicySectionManagementResultContent
+	err = got.UnmarshalBinary(v.ManageUEPolicyReject.GetUEPolicySectionManagementResultContent())
+	return got, v, err
+}
